@@ -30,6 +30,8 @@ LISTKEYS = ["items", "rows"]
 # operations whose operand is a configuration OBJECT built on the side (never a plain map):
 #   ("setobj", key, Obj, route)  cfg.key = other | root["a.key"] = other        ("appendobj", key, Obj)  cfg.key.append(other)
 #   ("setidxobj", key, i, Obj)   cfg.key[i] = other                              ("insertobj", key, i, Obj)  cfg.key.insert(i, other)
+#   ("again", kind, key, i, ops) the object offered last was NOT taken (refused, or the walk failed): the caller still holds it,
+#                                applies `ops` to it through its own reference and offers that very object again by `kind`
 #   ("alias", steps, op)         `op` applied through the reference the caller kept to the object handed over last; `steps` is
 #                                where the model finds that object below the addressed configuration (first step) and the rest
 #                                of the way to the configuration `op` addresses inside it
@@ -403,6 +405,13 @@ def rcase(rng, prop, nops, objs=False):
     for _ in range(rng.randint(1, nops)):
         op = rop(rng, fields, root_dyn, emph)
         ops.append(op)
+        if op[1][0] in OBJ_KINDS[1:] and rng.random() < 0.35:
+            # whatever became of the object: if the caller still holds it (refused / never offered) it is offered again, as it
+            # is or after its required fields got values; if it was taken this step is outside the model on both sides
+            nd = node_by_sp(fields, obj_of(op[1]).sp)
+            fix = [((), ("load", vtree(rng, nd["fields"]), False))] if rng.random() < 0.5 else []
+            kind = rng.choice(OBJ_KINDS[1:])
+            ops.append((op[0], ("again", kind, op[1][1], None if kind == "appendobj" else rng.choice([0, 1, -1, 5]) if kind == "insertobj" else rng.choice([0, 1, 5]), fix)))
         if op[1][0] == "setobj" and not op[0] and dict(fields).get(op[1][1], {}).get("t") == "sub" and rng.random() < 0.4:
             # the caller goes on using its own reference to the object it has just assigned (root level: the slot exists)
             nd = dict(fields)[op[1][1]]
@@ -549,6 +558,32 @@ def matrix_cases():
                               ((), ("alias", [("item", "items", 0)] + list(inner[0]), inner[1])), ((), ("validate", True))])
         aliased_items.append([((), ("setidxobj", "items", 1, Obj(("items",), item_srcs[1]))),
                               ((), ("alias", [("item", "items", 1)] + list(inner[0]), inner[1])), ((), ("validate", False))])
+    # a refused object is still the caller's: offered again as it is it must be refused again, in the same way; after the caller
+    # has repaired it through its own reference it is taken
+    A = lambda kind, k, i, dops: ((), ("again", kind, k, i, dops))        # noqa: E731
+    unset = ((), ("appendobj", "items", Obj(("items",), [])))
+    reoffered = [
+        [unset, A("appendobj", "items", None, []), A("appendobj", "items", None, []), ((), ("validate", True))],
+        [unset, A("insertobj", "items", 0, []), A("setidxobj", "items", 0, []), A("setidxobj", "items", 9, []), ((), ("validate", True))],
+        [unset, A("appendobj", "items", None, [S("n", 44)]), A("appendobj", "items", None, [S("n", 4)]), ((), ("validate", True)),
+         A("appendobj", "items", None, [])],
+        [((), ("insertobj", "items", 0, Obj(("items",), [S("s", "x")]))), A("insertobj", "items", 1, []), A("insertobj", "items", 1, [S("n", 0)]),
+         ((), ("alias", [("item", "items", 1)], ("set", "n", 11, "attr"))), ((), ("validate", False))],
+        [((), ("setidxobj", "items", 1, Obj(("items",), []))), A("setidxobj", "items", 1, []), A("setidxobj", "items", 1, [S("n", 3)]),
+         ((), ("validate", True))],
+        [((), ("setidxobj", "items", 7, Obj(("items",), [S("n", 3)]))), A("setidxobj", "items", 0, []), ((), ("validate", True))],
+        [((), ("setobj", "n", Obj(("sub",), [S("a", 9)]), "attr")), A("setobj", "s", None, []), A("setobj", "sub", None, [S("a", 10)]),
+         (K("sub"), ("set", "a", 11, "dotted"))],
+        [((), ("setobj", "items", Obj(("items",), [S("n", 3)]), "attr")), A("appendobj", "items", None, []), ((), ("validate", True))],
+        [(K("sub", "inner"), ("setobj", "t", Obj(("sub", "inner"), [S("t", "bad!")]), "attr")),
+         (K("sub"), ("again", "setobj", "inner", None, [])), ((), ("validate", True))],
+    ]
+    reoffered_b = [
+        [((), ("set", "rows", [{"n": 1}], "attr")), ((), ("appendobj", "rows", Obj(("rows",), []))), A("appendobj", "rows", None, []),
+         A("insertobj", "rows", 0, [S("n", 2)]), ((), ("validate", True))],
+        [((), ("appendobj", "rows", Obj(("rows",), [S("n", 2)]))), ((), ("set", "rows", [{"n": 1}], "attr")), A("appendobj", "rows", None, []),
+         ((), ("validate", False))],
+    ]
     typed_srcs = [[], [S("need", 5)], [S("need", 5), S("t", "bad!")], [S("need", "x")], [S("t", "bad!")]]
     row_srcs = [[], [S("n", 3)], [S("n", 30)]]
     obj_ops_b = [((), ("setobj", "typed", Obj(("typed",), d), "attr")) for d in typed_srcs]
@@ -571,6 +606,14 @@ def matrix_cases():
     for o1 in obj_ops[::4]:
         for o2 in obj_ops[1::6]:
             cases.append(dict(base, kw=kw2, ops=[o1, o2, ((), ("validate", True))], kind="matrix-obj2"))
+    for seq in reoffered:
+        cases.append(dict(base, kw=kw2, ops=seq, kind="matrix-again"))
+        if not any(o[0] == "alias" for _, o in seq):        # (the alias step names a position in the two-item list)
+            cases.append(dict(base, kw={"items": []}, ops=seq, kind="matrix-again"))
+        for n in range(2, len(seq)):
+            cases.append(dict(base, kw=kw2, ops=seq[:n], kind="matrix-again"))
+    for seq in reoffered_b:
+        cases.append(dict(base_b, kw={}, ops=seq, kind="matrix-again"))
     for seq in aliased:
         cases.append(dict(base, kw={}, ops=seq, kind="matrix-alias"))
     for seq in aliased_items:
@@ -738,8 +781,21 @@ def g_src(src, nd, gf=None):
     return "%s %s %s %s" % (g_bool(sdyn), g_list(nd["vals"], g_n), (gf or g_fields)(nd["fields"]), dops)
 
 
+def g_route(kind, i):
+    if kind == "setobj":
+        return "RSet"
+    if kind == "appendobj":
+        return "RAppend"
+    if kind == "setidxobj":
+        return "(RSetIdx %d%%nat)" % i
+    return "(RInsert %s)" % (g_z(i) if i >= 0 else "(%d)" % i)
+
+
 def g_pop(po, fields, gf=None):
     ps, o = po
+    if o[0] == "again":
+        dops = g_list(o[4], lambda q: "(%s,%s)" % (g_ps(q[0]), g_op(q[1])))
+        return "(%s,(XAgain %s %s %s))" % (g_ps(ps), g_route(o[1], o[3]), g_str(o[2]), dops)
     if o[0] == "alias":
         return "(%s,(XOp %s))" % (g_ps(list(ps) + list(o[1])), g_op(o[2]))
     return "(%s,%s)" % (g_ps(ps), g_xop(o, fields, gf))
@@ -845,6 +901,7 @@ class Built:
         self.keep = []          # side-built configurations stay alive: id() must not be reused within a case
         CURRENT[0] = self
         LAST_OBJ[0] = None
+        KEPT[0] = None
         self.vt = {n: (k, bad) for n, k, bad in c["vt"]}
         self.validator_log = []
 
@@ -1005,14 +1062,33 @@ def make_kw(b, c):
     return {k: (build_detached(b, v) if isinstance(v, Obj) else copy.deepcopy(v)) for k, v in c["kw"].items()}
 
 
+KEPT = [None]           # the object offered last, as long as the caller is the only one holding it (it was not taken)
+
+
 def apply_op(root, ps, o):
     """returns the outcome; mirrors exactly what a user would write"""
+    if o[0] == "again":
+        obj = KEPT[0]
+        if obj is None:
+            return "unmodelled"       # the object was taken: offering it again would hold it in two places (outside the model)
+        for dps, dop in o[4]:
+            apply_op(obj, dps, dop)
+            CURRENT[0].keep += [x for _, x in walk_cfgs(obj)]
+        norm = (o[1], o[2], None, "attr") if o[1] == "setobj" else (o[1], o[2], None) if o[1] == "appendobj" else (o[1], o[2], o[3], None)
+        out = _apply_op(root, ps, norm, obj)
+    elif o[0] in OBJ_KINDS:
+        obj = build_detached(CURRENT[0], obj_of(o))      # built before anything else happens, as in the model
+        out = _apply_op(root, ps, o, obj)
+    else:
+        return _apply_op(root, ps, o, None)
+    LAST_OBJ[0] = obj
+    KEPT[0] = None if out == "ok" else obj
+    return out
+
+
+def _apply_op(root, ps, o, obj):
     from cincoconfig import reset_value, Schema, ListField
     from cincoconfig.fields.list_field import ListProxy
-    obj = None
-    if o[0] in OBJ_KINDS:
-        obj = build_detached(CURRENT[0], obj_of(o))      # built before anything else happens, as in the model
-        LAST_OBJ[0] = obj
     if o[0] == "alias":
         if LAST_OBJ[0] is None:
             return "nav"
@@ -1098,11 +1174,15 @@ def impl(c):
             in_tree = LAST_OBJ[0] is not None and navigate(root, tuple(ps) + (o[1][0],)) is LAST_OBJ[0]
             alias_out = apply_op(root, ps, o)
             ps, o = tuple(ps) + tuple(o[1]), o[2]
+        again = o[0] == "again"
+        if again:
+            # for the oracles: the underlying hand-over (the recipe of the object is not needed there)
+            o = (o[1], o[2], None, "attr") if o[1] == "setobj" else (o[1], o[2], None) if o[1] == "appendobj" else (o[1], o[2], o[3], None)
         target = navigate(root, ps)
         tpath = None
         if target is not None:
             tpath = [p for p, obj in walk_cfgs(root) if obj is target][0]
-        out = alias_out if via_alias else apply_op(root, ps, o)
+        out = alias_out if via_alias else apply_op(root, ps, c["ops"][len(trace)][1] if again else o)
         stored = None
         if o[0] in OBJ_KINDS and out == "ok" and target is not None:
             held = target._data.get(o[1])
@@ -1139,7 +1219,7 @@ def impl(c):
                         defined_api[pjoin(pth, key)] = (type(e).__name__, key not in obj._default_value_keys)
         trace.append({"ps": ps, "op": o, "out": out, "before": prev, "after": snap, "same": same, "tpath": tpath,
                       "vlog": list(b.validator_log), "both": both, "defined_api": defined_api, "text": LAST_TEXT[0],
-                      "stored": stored, "alias": via_alias, "in_tree": in_tree})
+                      "stored": stored, "alias": via_alias, "in_tree": in_tree, "again": again})
         steps.append((out if not (isinstance(out, tuple) and out[0] == "err") else ("err", out[1]), snap, same))
         before_ids = ids
         prev = snap
@@ -1296,7 +1376,7 @@ def oracle_for(prop, c, obs):
         fresh(fields, first, "")
     for st in c.get("_trace", []):
         o, out, before, after = st["op"], st["out"], st["before"], st["after"]
-        if out == "nav":
+        if out in ("nav", "unmodelled"):
             if canon_snap(before) != canon_snap(after):
                 bad.append("harness navigation changed the configuration")
             continue
@@ -1635,6 +1715,8 @@ def tags(c, obs):
         o = st["op"]
         res = out if isinstance(out, str) else out[0]
         t.add("%s:%s" % (o[0], res))
+        if st.get("again"):
+            t.add("again:%s" % res)
         if isinstance(out, tuple) and out[0] == "err":
             k = out[1]
             t.add("err:" + (k[0] if isinstance(k, tuple) else k))
